@@ -496,7 +496,7 @@ pub fn run(pc: &PropCtx) {
     let n = pc.tier.pick(20_000, 400_000);
     pc.run_tape("library", n, (128, 1200), gen_lib_case, check_lib);
     if pc.tier == crate::runner::Tier::Thorough {
-        pc.run_fuzz("C14:library", 300_000, 5000, &|v| replay(pc, "library", v).unwrap_or(Verdict::Reject("unreadable")));
+        pc.run_fuzz("C14:library", 8_000, 5000, &|v| replay(pc, "library", v).unwrap_or(Verdict::Reject("unreadable")));
     }
     pc.set_shrink_iters(200);
     let n = pc.tier.pick(3_000, 60_000);
